@@ -22,6 +22,7 @@ _T = [
     "C11_shared_layer_second_grid", "C11_set_cells_array_pointwise",
     "C11_create_typed_default", "C11_new_layer_typed_default",
     "C11_layer_select_exact", "C11_layer_select_reads_cell_values", "C11_aggregate_exact",
+    "C11_cast_rules_match_numpy", "C11_ufunc_types_match_numpy", "C11_cast_values_match_numpy",
     "C18_layers_add_reject_unchanged", "C18_layers_create_reject_unchanged", "C18_layers_add_rejects_exactly",
     "C18_layers_step_reject_unchanged", "C18_layers_rejected_calls_invisible",
 ]
@@ -32,10 +33,13 @@ TRUSTED = [
     "element-wise function point-wise, in row-major order, on the values used (bool 0/1, small ints, floats that are "
     "multiples of 1/4: exact in binary64); entries are Ints in the encoding of the array's dtype",
     "numpy's casts and result types are *modelled* (castTo = assignment cast, sameKind = np.copyto's rule, UOp.result / "
-    "DType.join = result type of ufunc(array, Python scalar) and of np.where among bool_/int64/float64) and compared with "
-    "numpy on every run through typed writes, typed constructor defaults, typed set_cells / modify_cells and dtype read-outs; other dtypes (int32, "
-    "float32, uint8, object), NaN/inf, integer overflow, np.vectorize's choice of the output type from the *first* "
-    "result when a Python function returns values of different types are not modelled",
+    "DType.join = result type of ufunc(array, Python scalar) and of np.where among bool_/int64/float64); the rules "
+    "(every pair of types, every ufunc of the op language) and the values on a sample grid are probed from the running "
+    "numpy into Gen/NumpyTables.lean on every check (~100 lines of probing code in harness/layers_common.py) and the "
+    "model is proved equal to these tables; beyond the grid they are compared with numpy through typed writes, typed "
+    "constructor defaults, typed set_cells / modify_cells and dtype read-outs of the generated scenarios; other dtypes "
+    "(int32, float32, uint8, object), NaN/inf, integer overflow, np.vectorize's choice of the output type from the "
+    "*first* result when a Python function returns values of different types are not modelled",
     "numpy arrays are objects with identity (the model's heap): `a[...] = v` and np.copyto mutate, np.where allocates",
     "Python attribute lookup: a data descriptor on the class wins over the instance dict (PropertyDescriptor), hasattr() "
     "for the clash check; the model's list of Cell attribute names is generated (Gen/LayersTables.lean: AST of class Cell "
